@@ -118,6 +118,12 @@ var glSpecs = []glSpec{
 	{"bucketteer", "", "NewReader", "bkNewReader"},
 	{"bucketteer", "", "Hash", "bkHash"},
 	{"ipld/ipldbindcode", "", "VerifyHash", "framesVerifyHash"},
+	{"ipld/ipldbindcode", "DataFrame", "GetHash", "framesGetHash"},
+	{"ipld/ipldbindcode", "DataFrame", "GetIndex", "framesGetIndex"},
+	{"ipld/ipldbindcode", "DataFrame", "GetTotal", "framesGetTotal"},
+	{"ipld/ipldbindcode", "DataFrame", "HasHash", "framesHasHash"},
+	{"ipld/ipldbindcode", "DataFrame", "HasIndex", "framesHasIndex"},
+	{"ipld/ipldbindcode", "DataFrame", "HasTotal", "framesHasTotal"},
 	{"bucketteer", "", "readUint64Le", "bkReadUint64Le"},
 	{"bucketteer", "Reader", "Has", "bkReaderHas"},
 	{"gsfa/linkedlog", "uvarintReader", "ReadUvarint", "uvrReadUvarint"},
@@ -654,6 +660,13 @@ func (g *glGen) leanTypeOK(t types.Type) (string, bool) {
 		case *types.Array, *types.Struct:
 			return g.leanTypeOK(u.Elem())
 		}
+		// a pointer to a number (or to such a pointer) is an optional value: nil = none, `*p` on nil panics (Go.deref);
+		// read-only — a write through such a pointer is not translated
+		if nilablePtr(u) {
+			if e, ok := g.leanTypeOK(u.Elem()); ok {
+				return "(Option " + e + ")", true
+			}
+		}
 	case *types.Signature:
 		var ps []string
 		for i := 0; i < u.Params().Len(); i++ {
@@ -764,9 +777,27 @@ func (g *glGen) zero(t types.Type) (string, bool) {
 		z, ok := g.zero(u.Elem())
 		return fmt.Sprintf("(List.replicate %d %s)", u.Len(), z), ok
 	case *types.Pointer:
+		if nilablePtr(u) {
+			return "none", true
+		}
 		return g.zero(u.Elem())
 	}
 	return "", false
+}
+
+// nilablePtr: `*int`, `**uint64`, … — pointers that the tree uses as optional numbers
+func nilablePtr(t types.Type) bool {
+	p, ok := t.Underlying().(*types.Pointer)
+	if !ok {
+		return false
+	}
+	switch e := p.Elem().Underlying().(type) {
+	case *types.Basic:
+		return e.Info()&types.IsNumeric != 0
+	case *types.Pointer:
+		return nilablePtr(e)
+	}
+	return false
 }
 
 func (g *glGen) structDefs() string {
